@@ -44,6 +44,7 @@ C = [
  ('c03_function_get_fixed_key', 'C03', ['lb'], 'function.rs', r'let ans = binding\.get\(name\);', 'let ans = binding.get("max");'),
  ('c05_postfix_exist_inverted', 'C05', ['lb'], 'operator.rs', r'(impl PostfixOpManager \{[\s\S]*?binding\.get\(op\))\.is_some\(\)', r'\1.is_none()'),
  ('c10_prefix_exist_inverted', 'C10', ['lb'], 'operator.rs', r'(impl PrefixOpManager \{[\s\S]*?binding\.get\(op\))\.is_some\(\)', r'\1.is_none()'),
+ ('c18_set_unary_wrong_variant', 'C18', ['ds'], 'descriptor.rs', r'let value = Descriptor::UNARY\(descriptor\);', 'let value = Descriptor::POSTFIX(descriptor);'),
  ('c18_store_get_fixed_key', 'C18', ['ds'], 'descriptor.rs', r'let value = binding\.get\(&key\);', 'let value = binding.get(&DescriptorKey::LIST);'),
  ('c06_set_variable_wrong_name', 'C06', ['ev'], 'context.rs', r'self\.set\(name, ContextValue::Variable\(value\)\);', 'self.set("x", ContextValue::Variable(value));'),
  # ---- C07 order / laziness
